@@ -12,7 +12,7 @@ rsync -a --exclude target /verif/harness/ $W/harness/
 sed -i "s#/repo/marwood#$W/repo/marwood#" $W/harness/Cargo.toml
 rc=0
 for p in "$@"; do
-  VERIF_REPO=$W/repo VERIF_HARNESS=$W/harness VERIF_OUT=$W/out timeout 3000 /verif/check $p --tier ${TIER:-quick} > $W/out/$p.log 2>&1
+  VERIF_SKIP_PROOFS=${SKIP_PROOFS:-} VERIF_REPO=$W/repo VERIF_HARNESS=$W/harness VERIF_OUT=$W/out timeout 3000 /verif/check $p --tier ${TIER:-quick} > $W/out/$p.log 2>&1
   r=$?
   echo "== $p rc=$r"; grep -E "^VIOLATION|^KNOWN-FINDING|obligations" $W/out/$p.log | cut -c1-300
   if [ $r -ne 0 ]; then rc=1; mkdir -p /tmp/mutrun-last; cp -r $W/out/* /tmp/mutrun-last/ 2>/dev/null; fi
